@@ -64,7 +64,10 @@ SAFE_METHODS = {(str, "find"), (str, "startswith"), (str, "endswith"), (str, "st
                 (tuple, "count"), (list, "pop"), (list, "extend"), (str, "join"), (str, "format"), (str, "splitlines"), (str, "isnumeric"),
                 (list, "insert"), (list, "remove"), (dict, "pop"), (dict, "update"), (set, "add"), (str, "rstrip"), (str, "lstrip"),
                 (str, "rfind"), (str, "count"), (str, "index"), (list, "reverse"), (list, "sort"), (set, "remove"), (set, "discard"), (set, "union"),
-                (set, "intersection"), (set, "difference"), (set, "update"), (set, "copy"), (dict, "setdefault"), (dict, "copy"), (list, "clear")}
+                (set, "intersection"), (set, "difference"), (set, "update"), (set, "copy"), (dict, "setdefault"), (dict, "copy"), (list, "clear"),
+                (str, "zfill"), (str, "rjust"), (str, "ljust"), (str, "title"), (str, "capitalize"), (str, "partition"), (str, "rpartition"), (str, "rsplit"),
+                (str, "isalpha"), (str, "isalnum"), (str, "removeprefix"), (str, "removesuffix"), (set, "issubset"), (set, "issuperset"), (set, "isdisjoint"),
+                (set, "symmetric_difference"), (dict, "clear"), (dict, "popitem"), (tuple, "__len__")}
 
 
 def _own_walk(fn):
@@ -246,6 +249,17 @@ class Evaluator:
                     del env[t.id]
                 else:
                     raise Unsupported("del " + ast.unparse(t)[:30])
+        elif isinstance(st, ast.FunctionDef) and not st.decorator_list:
+            # a nested function: a callable that interprets its body with the enclosing locals visible (read at call time, as a closure)
+            outer = self
+
+            def closure(*a, _node=st, _env=env, **k):
+                scope = dict(outer.genv)
+                scope.update({k_: v_ for k_, v_ in _env.items() if not k_.startswith("\0")})
+                ev = Evaluator(_node, globals_env=scope, call_hook=outer.call_hook, max_steps=outer.max_steps, obj_types=outer.obj_types,
+                               attr_hook=outer.attr_hook, name_hook=outer.name_hook)
+                return ev.call(*a, **k)
+            env[st.name] = closure
         else:
             raise Unsupported(f"statement {type(st).__name__}")
 
